@@ -205,7 +205,7 @@ def run(tier, seed):
         jobs.append(("scaledA", lambda: _tlc("LZSS_scaled_big", timeout=2400)))
         jobs.append(("scaled3", lambda: _tlc("LZSS_scaled3", timeout=2400)))
     results = {}
-    with concurrent.futures.ThreadPoolExecutor(max_workers=3) as ex:
+    with concurrent.futures.ThreadPoolExecutor(max_workers=4) as ex:
         futs = {}
         for name, fn in jobs:
             futs[name] = ex.submit(fn)
